@@ -36,6 +36,68 @@ fn fwd_plan<T: Subj>(tier: Tier) -> Plan<T> {
     p
 }
 
+/// Roots above 128 bits (the Newton fix-point path): x in {r^n - 1, r^n, r^n + 1} for small and
+/// power-of-two-neighbour r and the exact n-th roots of the range, every listed degree, plus MAX,
+/// 2^(BITS-1) +- 1, 2^128, 2^128 + 1 and (signed) their negations
+fn roots_plan<T: Subj>(tier: Tier) -> Plan<T> {
+    let bits = T::BITS as u64;
+    let nb = T::bytes();
+    let ti = T::ti();
+    let max = ti.max::<BigRef>();
+    let big = |v: i128| BigRef::from_i128(v);
+    let mut degrees: Vec<u64> = (1..=12).collect();
+    degrees.extend([15, 16, 17, 31, 32, 33, 40, 63, 64, 65, 100, 127, 128, 129, 255, 256, 257, 258, 300, bits / 2, bits - 1, bits, bits + 1, 1000, 65535, 65536, 65537, (1u64 << 32) - 1]);
+    degrees.sort();
+    degrees.dedup();
+    let mut vals: Vec<BigRef> = vec![max.clone(), max.sub(&big(1)), BigRef::pow2(bits - 1).sub(&big(1)), BigRef::pow2(bits - 2).add(&big(1)), BigRef::pow2(128), BigRef::pow2(128).add(&big(1)), BigRef::pow2(128).sub(&big(1)), big(0), big(1), big(2)];
+    let small_r: Vec<BigRef> = [2i128, 3, 5, 7, 10, 255, 256, 257, 65535, 65536, 65537].iter().map(|x| big(*x)).collect();
+    for &n in &degrees {
+        if n > bits {
+            continue;
+        }
+        let mut rs = small_r.clone();
+        let top = max.nth_root_floor(n);
+        for d in -1..=1i128 {
+            rs.push(top.add(&big(d)));
+        }
+        if tier == Tier::Thorough {
+            for k in [1u64, 7, 8, 9, 31, 32, 33, 63, 64, 65] {
+                rs.push(BigRef::pow2(k).add(&big(1)));
+                rs.push(BigRef::pow2(k).sub(&big(1)));
+            }
+        }
+        for r in rs {
+            if r < big(2) || r.bit_len() * n > bits + n {
+                continue;
+            }
+            let p = r.pow(n);
+            for d in -1..=1i128 {
+                let x = p.add(&big(d));
+                if !x.is_neg() && x <= max {
+                    vals.push(x);
+                }
+            }
+        }
+    }
+    let mut bytes: Vec<Vec<u8>> = Vec::new();
+    for v in &vals {
+        bytes.push(v.to_le_bytes_wrapped(nb));
+        if T::SIGNED {
+            bytes.push(v.neg().to_le_bytes_wrapped(nb));
+        }
+    }
+    let bytes = sets::dedup(bytes);
+    Plan::new("ROOTS: r^n - 1, r^n, r^n + 1 and range boundaries", &bytes, &[], &[]).with_aux(Aux::K(21), degrees)
+}
+
+macro_rules! roots {
+    ($run:expr, $fam:ident, $n:literal) => {{
+        let tier = $run.tier;
+        $run.explore(&t::$fam::u_roots::<$n, BigRef>(), &roots_plan::<$fam::U<$n>>(tier));
+        $run.explore(&t::$fam::i_roots::<$n, BigRef>(), &roots_plan::<$fam::I<$n>>(tier));
+    }};
+}
+
 macro_rules! cfg {
     ($run:expr, $fam:ident, $n:literal, $z:ty) => {{
         let tier = $run.tier;
@@ -50,5 +112,19 @@ macro_rules! cfg {
 fn main() {
     let mut run = Run::from_args("C18", "c18");
     vcore::core_configs!(cfg, &mut run);
+    // the Newton path of the roots needs more than 128 bits; u8 digits wider than 257 bits make the
+    // degree itself exceed one digit
+    roots!(&mut run, d8, 17);
+    roots!(&mut run, d8, 40);
+    roots!(&mut run, d16, 12);
+    roots!(&mut run, d64, 3);
+    roots!(&mut run, d64, 4);
+    if run.tier == Tier::Thorough {
+        roots!(&mut run, d8, 24);
+        roots!(&mut run, d8, 128);
+        roots!(&mut run, d32, 10);
+        roots!(&mut run, d64, 8);
+        roots!(&mut run, d64, 16);
+    }
     std::process::exit(run.finish());
 }
